@@ -22,8 +22,9 @@ Definition no_access_rid (x : store) (X : nat) : Prop := forall k r, access x k 
 Definition no_active_refresh_rid (x : store) (X : nat) : Prop := forall k r, refresh x k = Some (true, r) -> r_id r <> X.
 Definition no_active_code_rid (x : store) (X : nat) : Prop := forall k r, codes x k = Some (true, r) -> r_id r <> X.
 (* the grant with request id X is dead: nothing of it is live and nothing can bring it back *)
+Definition no_device_rid (x : store) (X : nat) : Prop := forall k b r, device x k = Some (b, r) -> r_id r <> X.
 Definition dead (x : store) (X : nat) : Prop :=
-  no_access_rid x X /\ no_active_refresh_rid x X /\ no_active_code_rid x X.
+  no_access_rid x X /\ no_active_refresh_rid x X /\ no_active_code_rid x X /\ no_device_rid x X.
 
 Record Inv (s : state) : Prop := {
   inv_owner_code : forall k b r, codes (st s) k = Some (b, r) -> owner s k = Some (KCode, r_id r);
@@ -38,7 +39,14 @@ Record Inv (s : state) : Prop := {
   inv_code_rid : forall k k' b b' r r', codes (st s) k = Some (b, r) -> codes (st s) k' = Some (b', r') ->
                                         r_id r = r_id r' -> k = k';
   inv_access_code : forall k r, access (st s) k = Some r -> no_active_code_rid (st s) (r_id r);
-  inv_refresh_code : forall k b r, refresh (st s) k = Some (b, r) -> no_active_code_rid (st s) (r_id r)
+  inv_refresh_code : forall k b r, refresh (st s) k = Some (b, r) -> no_active_code_rid (st s) (r_id r);
+  (* device authorizations: a grant that still waits at the device endpoint has no code and no token *)
+  inv_owner_device : forall k b r, device (st s) k = Some (b, r) -> owner s k = Some (KDevice, r_id r);
+  inv_device_rid : forall k k' b b' r r', device (st s) k = Some (b, r) -> device (st s) k' = Some (b', r') ->
+                                          r_id r = r_id r' -> k = k';
+  inv_access_device : forall k r, access (st s) k = Some r -> no_device_rid (st s) (r_id r);
+  inv_refresh_device : forall k b r, refresh (st s) k = Some (b, r) -> no_device_rid (st s) (r_id r);
+  inv_code_device : forall k b r, codes (st s) k = Some (b, r) -> no_device_rid (st s) (r_id r)
 }.
 
 Lemma Inv_state0 cls : Inv (state0 cls).
@@ -74,17 +82,24 @@ Qed.
 (* changes outside the code/token tables *)
 Lemma Inv_same_tables s s' :
   Inv s -> codes (st s') = codes (st s) -> access (st s') = access (st s) -> refresh (st s') = refresh (st s) ->
-  at_idx (st s') = at_idx (st s) -> rt_idx (st s') = rt_idx (st s) ->
+  at_idx (st s') = at_idx (st s) -> rt_idx (st s') = rt_idx (st s) -> device (st s') = device (st s) ->
   owner s' = owner s -> log s' = log s -> next_key s <= next_key s' -> next_rid s <= next_rid s' -> Inv s'.
 Proof.
-  intros I Hc Ha Hr Hai Hri Ho Hl Hk Hn.
-  constructor; unfold no_active_code_rid; rewrite ?Hc, ?Ha, ?Hr, ?Hai, ?Hri, ?Ho, ?Hl.
+  intros I Hc Ha Hr Hai Hri Hd Ho Hl Hk Hn.
+  constructor; unfold no_active_code_rid, no_device_rid; rewrite ?Hc, ?Ha, ?Hr, ?Hai, ?Hri, ?Hd, ?Ho, ?Hl.
   - apply I. - apply I. - apply I.
   - intros k kd rid H. destruct (inv_owner_fresh s I _ _ _ H). lia.
   - apply I. - apply I. - apply I. - apply I. - apply I. - apply I.
   - intros k r H. exact (inv_access_code s I k r H).
   - intros k b r H. exact (inv_refresh_code s I k b r H).
+  - apply I. - apply I.
+  - intros k r H. exact (inv_access_device s I k r H).
+  - intros k b r H. exact (inv_refresh_device s I k b r H).
+  - intros k b r H. exact (inv_code_device s I k b r H).
 Qed.
+
+Lemma Inv_set_par s v : Inv s -> Inv (set_store s (set_par (st s) v)).
+Proof. intros I. eapply Inv_same_tables; eauto. Qed.
 
 Lemma Inv_set_now s t : Inv s -> Inv (set_now s t).
 Proof. intros I. eapply Inv_same_tables; eauto. Qed.
@@ -118,22 +133,26 @@ Proof.
   - intros X k H. pose proof (inv_rt_idx_owner s I _ _ H) as Ho.
     upd_case k (next_key s); [subst; exfalso; eauto|assumption].
   - apply I. - apply I. - apply I.
+  - intros k b r H. pose proof (inv_owner_device s I _ _ _ H) as Ho.
+    upd_case k (next_key s); [subst; exfalso; eauto|assumption].
+  - apply I. - apply I. - apply I. - apply I.
 Qed.
 
 Lemma Inv_log_add s l :
   Inv s -> (forall e, In e l -> owner s (i_key e) = Some (i_kind e, i_rid e)) -> Inv (log_add s l).
 Proof.
-  intros I Hl. constructor; unfold no_active_code_rid; cbn; try apply I.
+  intros I Hl. constructor; unfold no_active_code_rid, no_device_rid; cbn; try apply I.
   intros e He. apply in_app_or in He as [He|He]; [now apply I|now apply Hl].
 Qed.
 
 (* removing or deactivating never hurts *)
 Lemma Inv_delete_access s k : Inv s -> Inv (set_store s (delete_access (st s) k)).
 Proof.
-  intros I. constructor; unfold no_active_code_rid; cbn; try apply I.
+  intros I. constructor; unfold no_active_code_rid, no_device_rid; cbn; try apply I.
   - intros k' r H. upd_case k' k; [discriminate|now apply I].
   - intros k' r H. upd_case k' k; [discriminate|now apply I].
   - intros k' r H. upd_case k' k; [discriminate|]. exact (inv_access_code s I _ _ H).
+  - intros k' r H. upd_case k' k; [discriminate|]. exact (inv_access_device s I _ _ H).
 Qed.
 
 Lemma Inv_revoke_access s X : Inv s -> Inv (set_store s (revoke_access (st s) X)).
@@ -144,10 +163,11 @@ Qed.
 
 Lemma Inv_delete_refresh s k : Inv s -> Inv (set_store s (delete_refresh (st s) k)).
 Proof.
-  intros I. constructor; unfold no_active_code_rid; cbn; try apply I.
+  intros I. constructor; unfold no_active_code_rid, no_device_rid; cbn; try apply I.
   - intros k' b r H. upd_case k' k; [discriminate|]. eapply inv_owner_refresh; eassumption.
   - intros k' r H. upd_case k' k; [discriminate|now apply I].
   - intros k' b r H. upd_case k' k; [discriminate|]. exact (inv_refresh_code s I _ _ _ H).
+  - intros k' b r H. upd_case k' k; [discriminate|]. exact (inv_refresh_device s I _ _ _ H).
 Qed.
 
 Lemma Inv_revoke_refresh s X : Inv s -> Inv (set_store s (fst (revoke_refresh (st s) X))).
@@ -155,19 +175,20 @@ Proof.
   intros I. unfold revoke_refresh.
   destruct (rt_idx (st s) X) as [k|]; [|eapply Inv_same_tables; eauto].
   destruct (refresh (st s) k) as [[b r]|] eqn:E; [|eapply Inv_same_tables; eauto].
-  cbn [fst]. constructor; unfold no_active_code_rid; cbn; try apply I.
+  cbn [fst]. constructor; unfold no_active_code_rid, no_device_rid; cbn; try apply I.
   - intros k' b' r' H. upd_case k' k.
     + injection H as <- <-. subst. eapply inv_owner_refresh; eassumption.
     + eapply inv_owner_refresh; eassumption.
   - intros k' r' H. upd_case k' k; [discriminate|now apply I].
   - intros k' b' r' H. upd_case k' k; [injection H as <- <-; exact (inv_refresh_code s I _ _ _ E)|exact (inv_refresh_code s I _ _ _ H)].
+  - intros k' b' r' H. upd_case k' k; [injection H as <- <-; exact (inv_refresh_device s I _ _ _ E)|exact (inv_refresh_device s I _ _ _ H)].
 Qed.
 
 Lemma Inv_invalidate_code s k : Inv s -> Inv (set_store s (fst (invalidate_code (st s) k))).
 Proof.
   intros I. unfold invalidate_code.
   destruct (codes (st s) k) as [[b r]|] eqn:E; [|eapply Inv_same_tables; eauto].
-  cbn [fst]. constructor; unfold no_active_code_rid; cbn; try apply I.
+  cbn [fst]. constructor; unfold no_active_code_rid, no_device_rid; cbn; try apply I.
   - intros k' b' r' H. upd_case k' k.
     + injection H as <- <-. subst. eapply inv_owner_code; eassumption.
     + eapply inv_owner_code; eassumption.
@@ -178,15 +199,17 @@ Proof.
     + eapply (inv_code_rid s I); eassumption.
   - intros k' r' H kc rc Hc. upd_case kc k; [discriminate|]. exact (inv_access_code s I _ _ H kc rc Hc).
   - intros k' b' r' H kc rc Hc. upd_case kc k; [discriminate|]. exact (inv_refresh_code s I _ _ _ H kc rc Hc).
+  - intros k' b' r' H. upd_case k' k; [injection H as <- <-; exact (inv_code_device s I _ _ _ E)|exact (inv_code_device s I _ _ _ H)].
 Qed.
 
 Lemma Inv_create_code s k r :
   Inv s -> owner s k = Some (KCode, r_id r) -> codes (st s) k = None ->
   (forall k' b' r', codes (st s) k' = Some (b', r') -> r_id r' <> r_id r) ->
   no_access_rid (st s) (r_id r) -> (forall k' b' r', refresh (st s) k' = Some (b', r') -> r_id r' <> r_id r) ->
+  no_device_rid (st s) (r_id r) ->
   Inv (set_store s (create_code (st s) k r)).
 Proof.
-  intros I Ho Hnone Hrid Hna Hnr. constructor; unfold no_active_code_rid; cbn; try apply I.
+  intros I Ho Hnone Hrid Hna Hnr Hnd. constructor; unfold no_active_code_rid, no_device_rid; cbn; try apply I.
   - intros k' b' r' H. upd_case k' k.
     + injection H as <- <-. subst. assumption.
     + eapply inv_owner_code; eassumption.
@@ -201,13 +224,15 @@ Proof.
   - intros k' b' r' H kc rc Hc. upd_case kc k.
     + injection Hc as <-. intros Heq. eapply Hnr; [eassumption|congruence].
     + exact (inv_refresh_code s I _ _ _ H kc rc Hc).
+  - intros k' b' r' H. upd_case k' k; [injection H as <- <-; assumption|exact (inv_code_device s I _ _ _ H)].
 Qed.
 
 Lemma Inv_create_access s k r :
   Inv s -> owner s k = Some (KAccess, r_id r) -> no_access_rid (st s) (r_id r) -> no_active_code_rid (st s) (r_id r) ->
+  no_device_rid (st s) (r_id r) ->
   Inv (set_store s (create_access (st s) k r)).
 Proof.
-  intros I Ho Hna Hnc. constructor; unfold no_active_code_rid; cbn; try apply I.
+  intros I Ho Hna Hnc Hnd. constructor; unfold no_active_code_rid, no_device_rid; cbn; try apply I.
   - intros k' r' H. upd_case k' k; [injection H as <-; subst; assumption|now apply I].
   - intros k' r' H. upd_case k' k.
     + injection H as <-. subst. apply upd_eq.
@@ -216,13 +241,15 @@ Proof.
   - intros k' r' H. upd_case k' k.
     + injection H as <-. assumption.
     + exact (inv_access_code s I _ _ H).
+  - intros k' r' H. upd_case k' k; [injection H as <-; assumption|exact (inv_access_device s I _ _ H)].
 Qed.
 
 Lemma Inv_create_refresh s k r :
   Inv s -> owner s k = Some (KRefresh, r_id r) -> no_active_refresh_rid (st s) (r_id r) -> no_active_code_rid (st s) (r_id r) ->
+  no_device_rid (st s) (r_id r) ->
   Inv (set_store s (create_refresh (st s) k r)).
 Proof.
-  intros I Ho Hnr Hnc. constructor; unfold no_active_code_rid; cbn; try apply I.
+  intros I Ho Hnr Hnc Hnd. constructor; unfold no_active_code_rid, no_device_rid; cbn; try apply I.
   - intros k' b' r' H. upd_case k' k.
     + injection H as <- <-. subst. assumption.
     + eapply inv_owner_refresh; eassumption.
@@ -233,4 +260,75 @@ Proof.
   - intros k' b' r' H. upd_case k' k.
     + injection H as <- <-. assumption.
     + exact (inv_refresh_code s I _ _ _ H).
+  - intros k' b' r' H. upd_case k' k; [injection H as <- <-; assumption|exact (inv_refresh_device s I _ _ _ H)].
+Qed.
+
+(* ------------------------------------------------------------------ device records *)
+Lemma Inv_put_device_new s k r :
+  Inv s -> owner s k = Some (KDevice, r_id r) -> device (st s) k = None ->
+  no_device_rid (st s) (r_id r) -> no_access_rid (st s) (r_id r) ->
+  (forall k' b' r', refresh (st s) k' = Some (b', r') -> r_id r' <> r_id r) ->
+  (forall k' b' r', codes (st s) k' = Some (b', r') -> r_id r' <> r_id r) ->
+  Inv (set_store s (put_device (st s) k (0, r))).
+Proof.
+  intros I Ho Hnone Hnd Hna Hnr Hnc.
+  constructor; unfold no_active_code_rid, no_device_rid; cbn; try apply I.
+  - intros k' b' r' H. upd_case k' k; [injection H as <- <-; subst; assumption|eapply inv_owner_device; eassumption].
+  - intros k1 k2 b1 b2 r1 r2 H1 H2 Hr.
+    upd_case k1 k; upd_case k2 k; subst; try reflexivity.
+    + injection H1 as <- <-. exfalso. eapply Hnd; [eassumption|congruence].
+    + injection H2 as <- <-. exfalso. eapply Hnd; [eassumption|congruence].
+    + eapply (inv_device_rid s I); eassumption.
+  - intros k' r' H kd bd rd Hd. upd_case kd k.
+    + injection Hd as <- <-. intros Heq. eapply Hna; [eassumption|congruence].
+    + exact (inv_access_device s I _ _ H kd bd rd Hd).
+  - intros k' b' r' H kd bd rd Hd. upd_case kd k.
+    + injection Hd as <- <-. intros Heq. eapply Hnr; [eassumption|congruence].
+    + exact (inv_refresh_device s I _ _ _ H kd bd rd Hd).
+  - intros k' b' r' H kd bd rd Hd. upd_case kd k.
+    + injection Hd as <- <-. intros Heq. eapply Hnc; [eassumption|congruence].
+    + exact (inv_code_device s I _ _ _ H kd bd rd Hd).
+Qed.
+
+Lemma Inv_put_device_update s k b r b' r' :
+  Inv s -> device (st s) k = Some (b, r) -> r_id r' = r_id r ->
+  Inv (set_store s (put_device (st s) k (b', r'))).
+Proof.
+  intros I Hd Hrid.
+  constructor; unfold no_active_code_rid, no_device_rid; cbn; try apply I.
+  - intros k0 b0 r0 H. upd_case k0 k.
+    + injection H as <- <-. subst. rewrite Hrid. eapply inv_owner_device; eassumption.
+    + eapply inv_owner_device; eassumption.
+  - intros k1 k2 b1 b2 r1 r2 H1 H2 Hr.
+    upd_case k1 k; upd_case k2 k; subst; try reflexivity.
+    + injection H1 as <- <-. eapply (inv_device_rid s I); [exact Hd|exact H2|congruence].
+    + injection H2 as <- <-. eapply (inv_device_rid s I); [exact H1|exact Hd|congruence].
+    + eapply (inv_device_rid s I); eassumption.
+  - intros k0 r0 H kd bd rd Hd'. upd_case kd k.
+    + injection Hd' as <- <-. rewrite Hrid. exact (inv_access_device s I _ _ H k b r Hd).
+    + exact (inv_access_device s I _ _ H kd bd rd Hd').
+  - intros k0 b0 r0 H kd bd rd Hd'. upd_case kd k.
+    + injection Hd' as <- <-. rewrite Hrid. exact (inv_refresh_device s I _ _ _ H k b r Hd).
+    + exact (inv_refresh_device s I _ _ _ H kd bd rd Hd').
+  - intros k0 b0 r0 H kd bd rd Hd'. upd_case kd k.
+    + injection Hd' as <- <-. rewrite Hrid. exact (inv_code_device s I _ _ _ H k b r Hd).
+    + exact (inv_code_device s I _ _ _ H kd bd rd Hd').
+Qed.
+
+Lemma Inv_delete_device s k : Inv s -> Inv (set_store s (delete_device (st s) k)).
+Proof.
+  intros I. constructor; unfold no_active_code_rid, no_device_rid; cbn; try apply I.
+  - intros k0 b0 r0 H. upd_case k0 k; [discriminate|eapply inv_owner_device; eassumption].
+  - intros k1 k2 b1 b2 r1 r2 H1 H2 Hr. upd_case k1 k; [discriminate|]. upd_case k2 k; [discriminate|].
+    eapply (inv_device_rid s I); eassumption.
+  - intros k0 r0 H kd bd rd Hd. upd_case kd k; [discriminate|]. exact (inv_access_device s I _ _ H kd bd rd Hd).
+  - intros k0 b0 r0 H kd bd rd Hd. upd_case kd k; [discriminate|]. exact (inv_refresh_device s I _ _ _ H kd bd rd Hd).
+  - intros k0 b0 r0 H kd bd rd Hd. upd_case kd k; [discriminate|]. exact (inv_code_device s I _ _ _ H kd bd rd Hd).
+Qed.
+
+Lemma delete_device_no_device s k b r :
+  Inv s -> device (st s) k = Some (b, r) -> no_device_rid (delete_device (st s) k) (r_id r).
+Proof.
+  intros I Hd k' b' r' H Heq. cbn in H. upd_case k' k; [discriminate|].
+  apply Hk. eapply (inv_device_rid s I); eassumption.
 Qed.
